@@ -1216,3 +1216,59 @@ Section Enum.
       + intros v _ Hv. exact Hv.
   Qed.
 End Enum.
+
+(* well-formed graphs satisfy the side conditions of enum_general *)
+Lemma edge_mem_In : forall e l, edge_mem e l = true <-> In e l.
+Proof.
+  intros [a b] l. unfold edge_mem. rewrite existsb_exists. split.
+  - intros [[c d] [Hin E]]. unfold edge_eqb in E. cbn [fst snd] in E. apply andb_true_iff in E.
+    destruct E as [E1 E2]. apply Nat.eqb_eq in E1, E2. subst. exact Hin.
+  - intros Hin. exists (a, b). split; [exact Hin|]. unfold edge_eqb. cbn [fst snd]. rewrite !Nat.eqb_refl. reflexivity.
+Qed.
+
+Lemma in_nbrs : forall es r x, In x (nbrs es r) -> In (r, x) es \/ In (x, r) es.
+Proof.
+  intros es r x H. unfold nbrs in H. apply in_flat_map in H. destruct H as [[a b] [He Hx]].
+  unfold adj in Hx. cbn [fst snd] in Hx. destruct (Nat.eqb a r) eqn:Ea.
+  - destruct Hx as [<-|[]]. apply Nat.eqb_eq in Ea. subst. left. exact He.
+  - destruct (Nat.eqb b r) eqn:Eb; [|contradiction]. destruct Hx as [<-|[]]. apply Nat.eqb_eq in Eb. subst. right. exact He.
+Qed.
+
+Lemma wf_nbrs : forall nodes es r, edges_okb nodes es = true -> NoDup (nbrs es r) /\ ~ In r (nbrs es r).
+Proof.
+  intros nodes es r. induction es as [|[a b] es IH]; intros H; cbn [edges_okb] in H.
+  - split; [constructor|intros []].
+  - repeat (apply andb_true_iff in H; destruct H as [H ?]).
+    cbn [fst snd] in *. destruct (IH H0) as [Hnd Hnr].
+    apply negb_true_iff in H1, H2, H3. apply Nat.eqb_neq in H3.
+    assert (N1 : ~ In (a, b) es) by (intros Hi; apply edge_mem_In in Hi; congruence).
+    assert (N2 : ~ In (b, a) es) by (intros Hi; apply edge_mem_In in Hi; congruence).
+    unfold nbrs. cbn [flat_map]. fold (nbrs es r). unfold adj. cbn [fst snd].
+    destruct (Nat.eqb a r) eqn:Ea.
+    + apply Nat.eqb_eq in Ea. subst a. cbn [app]. split.
+      * constructor; [|exact Hnd]. intros Hi. apply in_nbrs in Hi. tauto.
+      * intros [Hi|Hi]; [congruence|contradiction].
+    + destruct (Nat.eqb b r) eqn:Eb.
+      * apply Nat.eqb_eq in Eb. subst b. cbn [app]. split.
+        -- constructor; [|exact Hnd]. intros Hi. apply in_nbrs in Hi. tauto.
+        -- intros [Hi|Hi]; [congruence|contradiction].
+      * cbn [app]. split; assumption.
+Qed.
+
+Lemma wf_graph_enum_hyps : forall g r, wf_graph g = true ->
+    NoDup (nbrs (g_edges g) r) /\ memb r (nbrs (g_edges g) r) = false.
+Proof.
+  intros g r H. unfold wf_graph in H. apply andb_true_iff in H. destruct H as [_ H].
+  destruct (wf_nbrs _ _ r H) as [A B]. split; [exact A|].
+  destruct (memb r (nbrs (g_edges g) r)) eqn:E; [|reflexivity]. apply memb_In in E. contradiction.
+Qed.
+
+Theorem enum_general_wf : forall (ord : list nat -> list nat) (g : graph) (root : nat),
+    (forall l, Permutation (ord l) l) -> wf_graph g = true ->
+    (forall c, In c (enum_ord ord g root) -> grown (g_edges g) root c) /\
+    (forall T, grown (g_edges g) root T -> (forall v, memb v T = true -> In v (g_nodes g)) ->
+               cnt T (enum_ord ord g root) = 1).
+Proof.
+  intros ord [nodes es] root Hord Hwf. destruct (wf_graph_enum_hyps (nodes, es) root Hwf) as [A B].
+  exact (enum_general ord es nodes root Hord A B).
+Qed.
